@@ -139,7 +139,7 @@ theorem repLoop_rel (h : RunRel g uni b Rl) {α} {u : Nat → Inp → M → R α
     simp only [repLoop]
     by_cases hmax : max = some idx
     · simp only [hmax, if_true]
-      split <;> exact h.refl _ _
+      rcases repDone_cases min (some idx) i m acc with hd | hd <;> rw [hd] <;> exact h.refl _ _
     · simp only [hmax, if_false]
       have h1 := (hu idx i m hb).restore (saved := m.stk)
       cases hr : restoreOnNone m.stk (u idx i m) with
@@ -147,7 +147,9 @@ theorem repLoop_rel (h : RunRel g uni b Rl) {α} {u : Nat → Inp → M → R α
       | fail m' =>
         rw [hr] at h1
         simp only []
-        split <;> exact h1
+        split
+        · exact h1
+        · rcases repDone_cases min max i m' acc with hd | hd <;> rw [hd] <;> exact h1
       | ok i' m' a =>
         rw [hr] at h1
         have hi := hau idx _ _ _ _ _ (restoreOnNone_ok hr)
@@ -358,7 +360,7 @@ theorem parse_rel (h : RunRel g uni b Rl) :
           | fail m' => rw [hr] at h1 hc; exact h.ruleFail hb hd hne hc h1
           | ok i' m' v => rw [hr] at h1 hc; exact h.ruleOk hb hd hne hc h1
     | array k x =>
-      simp only [parse]
+      simp only [parse, arrayTryInto_arrayLoop]
       have h1 := arrayLoop_rel h (ih inh x) (iha inh x) k [] i m hb
       cases hr : arrayLoop (parse g uni n inh x) k i m [] with
       | oof => trivial
@@ -858,7 +860,7 @@ theorem repLoop_min0_no_fail {α} (u : Nat → Inp → M → R α) (max : Option
   | zero => intro idx i m acc m' h; cases h
   | succ bd ih =>
     intro idx i m acc m' h
-    simp only [repLoop, Nat.not_lt_zero, if_false] at h
+    simp only [repLoop, Nat.not_lt_zero, if_false, repDone_min0] at h
     split at h
     · cases h
     · split at h
